@@ -65,7 +65,8 @@ def _build_harness(ctx, tags, race=False):
         shutil.copy(os.path.join(REPO, 'go.sum'), os.path.join(src, 'go.sum'))
         if REPO != '/repo':
             gm = os.path.join(src, 'go.mod')
-            open(gm, 'w').write(open(gm).read().replace('=> /repo', '=> ' + REPO))
+            txt = open(gm).read().replace('=> /repo', '=> ' + REPO)
+            open(gm, 'w').write(txt)
     out = ctx.path('harness-' + key.replace(',', '-').replace('+', '-'))
     r = sh(['go', 'build'] + (['-race'] if race else []) + ['-tags', tags, '-o', out, '.'], cwd=src, env=GOENV)
     if r.returncode != 0:
